@@ -17,7 +17,7 @@ ASSUMPTIONS = [
 EVAL = ['transitions']
 DISTINCT = ['__states__']
 REQUIRED = ['transitions', 'states', 'c06_checks', 'transitions_with_closed_endpoint', 'act_renegotiate', 'act_close',
-            'act_recvapp_ack(1)', 'act_sendrec_ack(1)']
+            'act_recvapp_ack(1)', 'act_sendrec_ack(1)', 'failed_reset_start_states']
 EXHAUSTIVE = 'all action sequences to the stated depth from each sampled start state (bounded exhaustive, not global)'
 NW = 16
 
